@@ -57,21 +57,19 @@ func main() {
 		}
 		r.Finish()
 	}
-	n := r.Pick(700, 30000)
-	for i := 0; i < n; i++ {
+	ev.Parallel(r.Pick(4000, 40000), 8, func(i int) {
 		runHistory(r, caseID{Layer: 1, Seed: r.Seed*1_000_003 + int64(i)})
-	}
-	nb := r.Pick(12, 120)
-	for i := 0; i < nb; i++ {
+	})
+	ev.Parallel(r.Pick(12, 120), 4, func(i int) {
 		runHistory(r, caseID{Layer: 1, Seed: r.Seed*7_000_003 + int64(i), Big: true})
-	}
-	ne := r.Pick(1, 10)
+	})
+	ne := r.Pick(3, 12)
 	for i := 0; i < ne; i++ {
 		runEngineHistory(r, caseID{Layer: 2, Seed: r.Seed*9_000_011 + int64(i)})
 	}
-	r.FloorNontrivial(int64(r.Pick(100, 3000)))
-	r.FloorCount("commands", int64(r.Pick(5000, 200000)))
-	r.FloorCount("engine_ops", int64(r.Pick(100, 1000)))
+	r.FloorNontrivial(int64(r.Pick(1500, 15000)))
+	r.FloorCount("commands", int64(r.Pick(60000, 600000)))
+	r.FloorCount("engine_ops", int64(r.Pick(400, 3000)))
 	r.Finish()
 }
 
